@@ -11,7 +11,7 @@ class Check(common.Check):
         'each_at_most_once', 'pop_is_head', 'pop_nondecreasing', 'two_pops_ordered',
         'fifo_among_equal', 'readd_moves_to_new_time_as_latest', 'remove_preserves_others',
         'empty_iff_no_live', 'peek_smallest_is_next_pop', 'peek_largest_is_max_latest',
-        'removed_counter_counts_tombstones')]
+        'removed_counter_counts_tombstones', 'drain_refines')]
     N_QUICK = 1000
     N_THOROUGH = 60000
     ASSUMPTIONS = ['heapq implements a priority queue under Python list comparison (trusted)',
@@ -49,8 +49,34 @@ class Check(common.Check):
                 ops.append('iter')
         return ops
 
+    def gen_shutdown(self, rng):
+        """exit actions that register, move or cancel other exit actions while shutdown runs"""
+        nt = rng.randint(2, 8)
+        adds = [[rng.randrange(0, 4), t] for t in range(nt) if rng.random() < 0.8] or [[0, 0]]
+        beh = {}
+        fresh = nt
+        for p, t in adds:
+            ops = []
+            for _ in range(rng.choice([0, 0, 1, 1, 2])):
+                r = rng.random()
+                if r < 0.45:
+                    ops.append(['a', rng.randrange(0, 5), fresh]); fresh += 1      # register a new one
+                elif r < 0.8:
+                    later = [u for _, u in adds if u > t]     # only later ids: no re-registration cycles
+                    if later:
+                        ops.append(['a', rng.randrange(0, 5), rng.choice(later)])   # move / re-register
+                else:
+                    ops.append(['r', rng.choice(adds)[1]])                       # cancel
+            if ops:
+                beh[str(t)] = ops
+        # no action re-registers itself (would never terminate)
+        for t, ops in beh.items():
+            beh[t] = [o for o in ops if not (o[0] == 'a' and str(o[2]) == t)]
+        return {'adds': adds, 'beh': beh}
+
     def gen(self, rng, n):
         cases = [self.gen_one(rng) for _ in range(n)]
+        cases += [self.gen_shutdown(rng) for _ in range(max(20, n // 8))]
         if self.tier == 'thorough':
             import itertools
             alpha = ['add 0 0', 'add 0 1', 'add 1 0', 'add 1 1', 'remove 0', 'remove 1', 'pop',
@@ -72,7 +98,12 @@ class Check(common.Check):
         lines = []
         for ops in cases:
             lines.append('reset')
-            lines.extend(ops)
+            if isinstance(ops, dict):
+                lines.extend(f'add {p} {t}' for p, t in ops['adds'])
+                lines.append('drain ' + ' '.join(
+                    f'{t}:' + ';'.join('.'.join(str(x) for x in o) for o in os_) for t, os_ in ops['beh'].items()))
+            else:
+                lines.extend(ops)
         out, err = common.run_driver('Sc3Verif/C09/Driver.lean', lines)
         if out is None:
             raise RuntimeError('driver failed: ' + err)
@@ -82,10 +113,37 @@ class Check(common.Check):
                 cur = []; res.append(cur)
             else:
                 cur.append(l)
-        return res
+        # a shutdown case prints one 'ok' per add and then the drain line; keep the drain line
+        return [([c[-1]] if isinstance(case, dict) else c) for case, c in zip(cases, res)]
 
     # ---- property oracle on the real behaviour (independent of the Lean model) -----------
+    def oracle_shutdown(self, case, out):
+        s, seq, ran = [], 0, []
+
+        def add(p, t):
+            nonlocal s, seq
+            s = [x for x in s if x[2] != t]
+            s.append((p, seq, t)); seq += 1; s.sort()
+        for p, t in case['adds']:
+            add(p, t)
+        while s and len(ran) <= 200:
+            _, _, t = s.pop(0)
+            ran.append(t)
+            for op in case['beh'].get(str(t), []):
+                if op[0] == 'a':
+                    add(op[1], op[2])
+                else:
+                    s = [x for x in s if x[2] != op[1]]
+        exp = 'ran ' + ' '.join(str(t) for t in ran)
+        if out != [exp]:
+            return {'what': f'shutdown ran exit actions as `{out[0] if out else None}`; every registered action, in time '
+                            f'order with FIFO ties, including those registered or moved during shutdown: `{exp}`',
+                    'signature': 'taskq:shutdown'}
+        return None
+
     def oracle(self, ops, out):
+        if isinstance(ops, dict):
+            return self.oracle_shutdown(ops, out)
         s = []   # list of (prio, seq, task), kept sorted by (prio, seq)
         seq = 0
         for i, (line, o) in enumerate(zip(ops, out)):
@@ -119,6 +177,8 @@ class Check(common.Check):
         return None
 
     def nontrivial(self, ops, out):
+        if isinstance(ops, dict):
+            return bool(ops['beh'])
         seen, re_add = set(), False
         for l in ops:
             w = l.split()
@@ -131,14 +191,18 @@ class Check(common.Check):
         return re_add and any(o.startswith('(') or o.startswith('[(') for o in out)
 
     def histogram(self, cases, outs):
-        h = {}
+        h = {'shutdown_cases': sum(1 for c in cases if isinstance(c, dict))}
         for ops, out in zip(cases, outs):
+            if isinstance(ops, dict):
+                continue
             for l, o in zip(ops, out):
                 k = l.split()[0] + (':KeyError' if o == 'KeyError' else '')
                 h[k] = h.get(k, 0) + 1
         h['histories'] = len(cases)
-        h['max_len'] = max((len(c) for c in cases), default=0)
+        h['max_len'] = max((len(c) for c in cases if not isinstance(c, dict)), default=0)
         return h
 
     def shrink(self, ops, fails):
+        if isinstance(ops, dict):
+            return ops
         return common.shrink_list(ops, fails)
